@@ -25,9 +25,9 @@ SKELETONS: Dict[int, List] = {
 OPS = ("U", "O", "X")
 SPELL = ({"U": "U", "O": "O", "X": "X"}, {"U": "u", "O": "o", "X": "x"}, {"U": "∧", "O": "∨", "X": "⊻"}, {"U": " U ", "O": "\tO ", "X": " X\n"})
 LEAF_KINDS = ("rc", "hint", "rc+fc", "hint+fc", "fc+rc", "fc")
-RC_KEYS = ("1", "2", "3", "4", "5")
-HINT_KEYS = ("501", "502", "503", "504", "505")
-FC_KEYS = ("901", "902", "903", "904", "905", "906", "907", "908", "909")
+RC_KEYS = ("1", "2", "499", "4", "5")  # boundary keys of each category on purpose (1..499 requirement, 500..900 hint, 901..999 format)
+HINT_KEYS = ("900", "500", "503", "504", "505")
+FC_KEYS = ("901", "999", "903", "904", "905", "906", "907", "908", "909")
 
 
 def inner_count(skel) -> int:
